@@ -37,6 +37,13 @@ META = {
         bounds_thorough="lists <=4; 8 first-segment sizes; all tables of 2 and 3",
         assumptions=COMMON_ASSUME + ["a detector is applied to the first segment the client's stack delivered (<=1024 bytes); a client that sends nothing to a list whose decision needs a detector is not judged"],
     ),
+    "C04": dict(
+        rule="for each service a token grammar (complete commands/requests with the events the generator expects for them): all token sequences up to depth 2 (thorough 3; one request per connection for the single-request services) x deliveries {unsegmented, lock-step, every single cut point, (thorough, streams <=64 bytes) every pair of cut points, 1-byte dribble stepwise and pre-queued}; each execution runs a fresh real server (server.New+Run) in a bubble and compares the ordered canonical event list of the connection with the expected list. UDP services: every datagram alone and all ordered sequences of <=2 (thorough 3) datagrams through the real datagram dispatcher. Distinct = distinct (service, event list) outcomes.",
+        bounds_quick="depth 2; cut-1 exhaustive; dribble for streams <=200 bytes",
+        bounds_thorough="depth 3; cut-1 exhaustive; cut-2 exhaustive for streams <=64 bytes",
+        assumptions=COMMON_ASSUME + ["expected events come from the token generator (fields the client controls: see DESIGN.md appendix A); replies are not judged here"],
+        deadline_quick=600, deadline_thorough=3000,
+    ),
 }
 
 NOT_APPLICABLE = {}
